@@ -103,6 +103,7 @@ def runSession (lines : List String) : String :=
       | ["reward"] => replayReward rest
       | ["repr"] => ReprConf.replayRepr rest
       | ["guard-table"] => Small.guardTable
+      | ["facade"] => Small.replayFacade rest
       | ["reserve"] => ReserveConf.replayReserve rest
       | "cache" :: hd => CacheConf.replayCache hd rest
       | ["kernel", "wait"] => Small.replayWait rest
